@@ -89,7 +89,13 @@ def metals():
 
 def generate(ctx):
     p1 = gen_periodic.generate()[0]
-    p2 = gen_query.generate()
+    try:
+        p2 = gen_query.generate()
+    except Exception as e:
+        # C08's translator also checks tokenizer literals that C14 does not use (only the element flags / setter domains of
+        # Gen/QueryTables.lean are read by Model/QueryEq.lean): keep the committed file and say so instead of failing C14
+        ctx.notes.append(f'gen_query (C08 translator) raised {type(e).__name__}: {str(e)[:200]}; Gen/QueryTables.lean left as committed')
+        p2 = core.LEAN / 'ChythonModel' / 'Gen' / 'QueryTables.lean'
     path, std, chg, pats = gen_rules.generate()
     for name, rows in list(std.items()) + list(chg.items()) + list(pats.items()):
         for i, r in enumerate(rows):
@@ -205,7 +211,7 @@ def build(atoms, bonds):
     return m
 
 
-def instantiate(rec, rng, metal_choices=None):
+def instantiate(rec, rng, metal_choices=None, metal_charge=None):
     """one molecule drawn from a pattern record: elements chosen from the lists, D / x / z constraints filled with substituents.
     Returns (atoms, bonds, fillers) or None."""
     atoms, bonds, fillers = {}, [], []
@@ -224,7 +230,11 @@ def instantiate(rec, rng, metal_choices=None):
             z = rng.choice(k[1])
         else:
             z = k[1]
-        atoms[n] = (z, a['charge'], a['radical'])
+        ch = a['charge']
+        if k == 'metal' and metal_choices is not None:
+            # AnyMetal does not test the charge; +4 exercises the documented abort
+            ch = metal_charge if metal_charge is not None else rng.choice([0, 0, 1, 2, 3, 3, 4])
+        atoms[n] = (z, ch, a['radical'])
     for (n, m), o in order.items():
         bonds.append((n, m, o))
     nxt = max(atoms) + 1
@@ -367,6 +377,52 @@ def overlap_instances(ctx, per_rule=1):
     return out
 
 
+def ionize(rng, mol):
+    """salt / zwitterion drawings of a (Kekule) molecule: carboxylic and sulfonic O-H deprotonated, amines protonated, at
+    random; sometimes with counter-ions as extra components. Hydrogens and charges are written directly (a proton moved)."""
+    c = mol.copy()
+    acids, bases = [], []
+    for n, a in c.atoms():
+        if a.charge or a.is_radical or a.implicit_hydrogens is None:
+            continue
+        nb = c._bonds[n]
+        if a.atomic_number == 8 and len(nb) == 1 and a.implicit_hydrogens == 1:
+            (k, b), = nb.items()
+            if int(b) == 1 and c.atom(k).atomic_number in (6, 15, 16) and \
+                    any(int(bb) == 2 and c.atom(x).atomic_number == 8 for x, bb in c._bonds[k].items()):
+                acids.append(n)
+        elif a.atomic_number == 7 and all(int(b) == 1 for b in nb.values()) and len(nb) + a.implicit_hydrogens == 3 and \
+                all(c.atom(k).atomic_number == 6 and all(int(bb) == 1 for bb in c._bonds[k].values()) for k in nb):
+            bases.append(n)
+    picked_a = [n for n in acids if rng.random() < 0.6]
+    picked_b = [n for n in bases if rng.random() < 0.6]
+    if acids and bases:  # a donor and an acceptor: `neutralize` has a proton to move
+        picked_a = picked_a or [rng.choice(acids)]
+        picked_b = picked_b or [rng.choice(bases)]
+    if not picked_a and not picked_b:
+        return None
+    for n in picked_a:
+        a = c.atom(n)
+        a._charge -= 1
+        a._implicit_hydrogens -= 1
+    for n in picked_b:
+        a = c.atom(n)
+        a._charge += 1
+        a._implicit_hydrogens += 1
+    ints = wire.mol_to_ints(c)
+    m, _ = wire.ints_to_mol(ints, calc=True)
+    if rng.random() < 0.4:
+        from chython.periodictable import Na, Cl
+        nxt = max(m._atoms) + 1
+        for _ in range(rng.randint(1, 2)):
+            if rng.random() < 0.5:
+                m.add_atom(Na(charge=1), nxt)
+            else:
+                m.add_atom(Cl(charge=-1), nxt)
+            nxt += 1
+    return m
+
+
 def graft(rng, base, group, fillers):
     """base molecule with `group` attached through one of its CH3 fillers to an H-bearing carbon of base (or as a separate
     component when there is no such pair)."""
@@ -439,6 +495,16 @@ def molecule_pool(ctx):
             except Exception:
                 continue
             pool.append((f'{lab}+{gl}', m, [], hint))
+    # salts and zwitterions drawn from corpus molecules (neutralize has something to do)
+    for lab, base in corp:
+        try:
+            k = base.copy()
+            k.kekule()
+            m = ionize(rng, k)
+        except Exception:
+            m = None
+        if m is not None:
+            pool.append((f'ion:{lab}', m, [], None))
     # random decorated skeletons (often valence-invalid) and ring assemblies
     for i in range(30 if ctx.quick else 300):
         try:
@@ -959,6 +1025,10 @@ def signature(ints, op, check, ft=False):
     """smallest stable description of what fails where: operation, clause and - where one can be isolated - the rule
     (by its SMARTS) or sub-operation that already breaks the clause on its own."""
     base = sig(op, check)
+    if op in ('standardize', 'canonicalize') and check in ('hydrogen-count', 'net-charge', 'valence-error'):
+        # fix_resonance is the first step of both: does it break the clause on its own?
+        if any(x[0] == check for x in oracle(ints, 'fix_resonance', False, None, renumber=False)):
+            return [f'C14/fix_resonance/{check}']
     if op in ('standardize', 'canonicalize', 'tautomers') and check in ('hydrogen-count', 'net-charge', 'valence-error'):
         c = culprit_rules(ints, check)
         if c:
@@ -1067,6 +1137,53 @@ def renumber_culprits(ints, seeds=6):
     return out
 
 
+def accounting_oracle(ints, ft=True):
+    """the log of `standardize(logging=True)` is an exact ledger of the net charge (the Lean theorem
+    `standardize_charge_accounting`, evaluated on the real code with the real tables): the net charge changes by exactly the
+    sum of the `atom_fix` deltas of the rules logged as applied - for every input, valid or not. A `bad charge formed`
+    entry stands for "changes omitted", i.e. for no change at all."""
+    m, _ = wire.ints_to_mol(ints, calc=True)
+    q0 = int(m)
+    try:
+        log = m.standardize(logging=True, fix_tautomers=ft)
+    except Exception:
+        return []
+    names = pattern_names()
+    exp = 0
+    for _match, r, text in log:
+        if r < 0 or text.startswith('bad charge'):
+            continue
+        if text not in names:
+            return []
+        t, i = names[text]
+        exp += sum(c for c, _ in real_tables()[t][i][1].values())
+    if int(m) - q0 != exp:
+        return [('charge-accounting', f'net charge {q0} -> {int(m)}, the log accounts for {exp:+d}: {[x[1:] for x in log if x[1] >= 0][:4]}')]
+    return []
+
+
+def converted_oracle(ints, tname, idx):
+    """every rule applied to its own pattern instantiated as a molecule converts it: after standardize() the pattern does not
+    match any more. The documented exception is the abort `bad charge formed` for an atom that already carries +4."""
+    m, _ = wire.ints_to_mol(ints, calc=True)
+    pat = real_tables()[tname][idx][0]
+    if next(pat.get_mapping(m, automorphism_filter=False), None) is None:
+        return []
+    try:
+        log = m.standardize(logging=True, fix_tautomers=True)
+    except Exception as e:
+        return [('rule-not-converted', f'standardize raised {type(e).__name__}: {e}', False)]
+    if next(pat.get_mapping(m, automorphism_filter=False), None) is None:
+        return []
+    aborted = [match for match, r, text in log if r >= 0 and text.startswith('bad charge')]
+    if aborted and all(any(m.atom(n).charge >= 4 for n in match) for match in aborted):
+        return []
+    s1 = str(m)
+    m.standardize(fix_tautomers=True)
+    second = next(pat.get_mapping(m, automorphism_filter=False), None) is None
+    return [('rule-not-converted', f'{str(pat)} still matches {s1} after standardize()', second)]
+
+
 def documented_oracle(raw, result):
     from chython import smiles
     try:
@@ -1092,6 +1209,18 @@ def relational(ctx, pool, programs):
         ctx.dist('R:documented')
         for check, detail in documented_oracle(raw, res):
             ctx.fail(sig('standardize', check), detail, {'kind': 'documented', 'raw': raw, 'result': res})
+    # every rule applied to its own pattern instantiated as a molecule (all instances, cheap)
+    for lab, mol, _f, _h in pool:
+        if not _h or '+' in lab or lab.startswith('corpus'):
+            continue
+        ints = wire.mol_to_ints(mol)
+        ctx.count(('R', 'converted', str(mol), _h))
+        ctx.dist('R:rule-converts-own-pattern')
+        for check, detail, second in converted_oracle(ints, *_h):
+            sg = 'C14/standardize/idempotent/overlap-skip' if second else f'C14/standardize/{check}/{str(real_tables()[_h[0]][_h[1]][0])}'
+            ctx.fail(sg, f'{lab} [{str(mol)}]: {detail}', {'kind': 'converted', 'wire': ints, 'table': _h[0], 'index': _h[1], 'smiles': str(mol)})
+        for check, detail in accounting_oracle(ints):
+            ctx.fail(sig('standardize', check), f'{lab} [{str(mol)}]: {detail}', {'kind': 'accounting', 'wire': ints, 'smiles': str(mol)})
     order = list(range(len(pool)))
     ctx.rng.shuffle(order)
     done = 0
@@ -1100,11 +1229,14 @@ def relational(ctx, pool, programs):
             ctx.notes.append(f'relational budget reached after {done} molecules')
             break
         lab, mol, _f, _h = pool[i]
-        if len(mol) > 90 or 'xmetal:' in lab:
+        if len(mol) > 90:
+            continue
+        if 'xmetal:' in lab:
             continue
         ints = wire.mol_to_ints(mol)
         corpus = lab.startswith('corpus[') and '+' not in lab
         valid = is_valid(mol)
+
         for op in OPS:
             if op == 'tautomers' and (len(mol) > 40 or (ctx.quick and done % 3)):
                 continue
@@ -1131,6 +1263,31 @@ def search(ctx):
     """Property-level oracles on the real code, starting from the molecules of the disagreeing cases and the rules the broken
     obligations name, then widening to the whole pool with more renumberings. Never consults the Lean model."""
     pool = _state.get('pool') or molecule_pool(ctx)
+    # targeted: every rule with a metal atom, its pattern drawn with a +4 / +3 metal (the abort path of `atom_fix`), and every
+    # rule instance again through the ledger and conversion clauses
+    tabs = real_tables()
+    for tname, recs in _state.get('std', {}).items():
+        for idx, rec in enumerate(recs):
+            if not any(a['kind'] == 'metal' for _, a in rec['atoms']):
+                continue
+            for q in (4, 4, 3):
+                inst = instantiate(rec, ctx.rng, METALS_ALL, metal_charge=q)
+                if inst is None:
+                    continue
+                try:
+                    mol = build(inst[0], inst[1])
+                except Exception:
+                    continue
+                ints = wire.mol_to_ints(mol)
+                for check, detail in accounting_oracle(ints):
+                    ctx.fail(sig('standardize', check), f'{tname}[{idx}] with a {q:+d} metal [{str(mol)}]: {detail}',
+                             {'kind': 'accounting', 'wire': ints, 'smiles': str(mol)})
+                for check, detail, second in converted_oracle(ints, tname, idx):
+                    if not second:
+                        ctx.fail(f'C14/standardize/{check}/{str(tabs[tname][idx][0])}', f'{tname}[{idx}] [{str(mol)}]: {detail}',
+                                 {'kind': 'converted', 'wire': ints, 'table': tname, 'index': idx, 'smiles': str(mol)})
+    if ctx.failures:
+        return
     bad = {lab for _s, lab in _state.get('disagreeing', [])}
     first = [p for p in pool if any(p[0] in b or b.startswith(p[0]) for b in bad)]
     rest = [p for p in pool if p not in first]
@@ -1190,6 +1347,12 @@ def probe(inp):
     if kind == 'documented':
         f = documented_oracle(inp['raw'], inp['result'])
         return bool(f), f[0][1] if f else f'{inp["raw"]} standardizes to the documented {inp["result"]}'
+    if kind == 'accounting':
+        f = accounting_oracle(inp['wire'])
+        return bool(f), f[0][1] if f else f'{inp.get("smiles")}: the log accounts for the charge change'
+    if kind == 'converted':
+        f = converted_oracle(inp['wire'], inp['table'], inp['index'])
+        return bool(f), f[0][1] if f else f'{inp.get("smiles")}: the rule converts its own pattern'
     if kind == 'inverse':
         f = [x for x in inverse_oracle(inp['wire']) if x[0] == inp.get('check', x[0])]
         return bool(f), f[0][1] if f else 'explicify/implicify are inverse on this input'
